@@ -384,6 +384,74 @@ def run_history(drv, rng, out, stats, label, n_steps, thorough=False):
         out.disagreements.append({"what": "number of classes", "impl": len(real), "model": len(model), **h.case()})
 
 
+def instance_and_alias_case(rng, out, stats):
+    """(1) instances of a subclass are instances of the parent: the parent, and a property slot of the parent's type, take them as
+    they are; (2) a subclass that reuses one of the parent's own Property objects under another attribute name leaves the parent's
+    behaviour as it was (compared with an independently built twin of the parent)."""
+    from statham.schema.elements import Integer, Object, String
+    from statham.schema.elements.meta import ObjectClassDict, ObjectMeta
+    closed = rng.random() < 0.5
+    renamed = rng.random() < 0.5
+    spec = {"closed": closed, "renamed": renamed, "alias": rng.random() < 0.5, "child_first": rng.random() < 0.5}
+
+    def make_parent(name):
+        cd = ObjectClassDict()
+        cd["color"] = Property(String(), required=True, source="colour-name" if renamed else None)
+        cd["n"] = Property(Integer())
+        return ObjectMeta(name, (Object,), cd, **({"additionalProperties": False} if closed else {}))
+    parent, twin = make_parent("Product"), make_parent("Product")
+    key = "colour-name" if renamed else "color"
+    cd = ObjectClassDict()
+    cd["size"] = Property(Integer(), required=True)
+    if spec["alias"]:
+        cd["colour"] = parent.properties["color"]          # the very same Property object, under another name
+    child = ObjectMeta("ProductV2", (parent,), cd, **({"additionalProperties": True} if closed and rng.random() < 0.5 else {}))
+    case = {"instance_alias": spec}
+    out.note_case(case, True)
+    values = [{key: "red"}, {key: "red", "n": 1}, {}, {key: 1}, {key: "red", "zz": 1}, {"color": "red"}, {"colour": "red"}]
+    child_data = {key: "red", "size": 3, "n": 2} if not spec["alias"] else {key: "red", "size": 3}
+    if spec["child_first"]:
+        core.real_call(child, child_data)
+    # (1)
+    try:
+        inst = child(child_data)
+    except Exception:  # noqa: BLE001
+        inst = None
+    if inst is not None:
+        if not isinstance(inst, parent):
+            out.failures.append({"case": case, "what": "an instance of the subclass is not an instance of the parent", "finding": None})
+            return
+        cd2 = ObjectClassDict()
+        cd2["item"] = Property(parent, required=True)
+        holder = ObjectMeta("Holder", (Object,), cd2)
+        for what, call in (("the parent called on a subclass instance", lambda: parent(inst)), ("a property of the parent's type given a subclass instance", lambda: holder({"item": inst}).item)):
+            try:
+                got = call()
+            except Exception as exc:  # noqa: BLE001
+                out.failures.append({"case": case, "what": f"{what}: {type(exc).__name__}: {str(exc)[:120]}", "finding": None})
+                return
+            if got is not inst and got != inst:
+                out.failures.append({"case": case, "what": f"{what}: came back as a different object {got!r}", "finding": None})
+                return
+        stats["subclass-instance-ok"] = stats.get("subclass-instance-ok", 0) + 1
+    # (2) the parent behaves like its untouched twin (results, not text: re-binding a shared wrapper is allowed to show in reprs)
+    bp, bt = behaviour(parent, values), behaviour(twin, values)
+    if bp != bt:
+        i = next((i for i, (x, y) in enumerate(zip(bp[0], bt[0])) if x != y), None)
+        out.failures.append({"case": case, "what": "defining / using the subclass changed the parent: " +
+                             (f"on {values[i]!r} it answers {bp[0][i][:100]}, its twin {bt[0][i][:100]}" if i is not None else "its serialization differs from its twin's"), "finding": None})
+        return
+    try:
+        pinst = parent({key: "red"})
+        if getattr(pinst, "color", None) != "red":
+            out.failures.append({"case": case, "what": f"the parent's own attribute is gone: Product({{{key!r}: 'red'}}).color is {getattr(pinst, 'color', '<missing>')!r}", "finding": None})
+            return
+    except Exception as exc:  # noqa: BLE001
+        out.failures.append({"case": case, "what": f"the parent no longer accepts its own data: {type(exc).__name__}", "finding": None})
+        return
+    stats["parent-twin-ok"] = stats.get("parent-twin-ok", 0) + 1
+
+
 def run(ctx, scale=1.0):
     rng = random.Random(ctx["seed"] + 15)
     out = Outcome()
@@ -398,6 +466,8 @@ def run(ctx, scale=1.0):
         n = int(N_HIST[ctx["tier"]] * scale)
         for i in range(n):
             run_history(drv, rng, out, stats, f"h{i}", rng.randint(1, 25))
+        for i in range(int(60 * scale)):
+            instance_and_alias_case(rng, out, stats)
     finally:
         drv.close()
     out.stats = stats
